@@ -808,18 +808,10 @@ def replay_ksa_batch(model):
     return {"reproduced": bool(bad), "Etot": out}
 
 
-def task_ksa_subspace_solve(ctx):
-    """O4 for the KSA driver: the statements of scf_forward3 that solve for the update inside the Krylov subspace
-    (Rank_m = ... up to IdentRes = ..., extracted from the source on every run) are total and return the orthogonal projection of
-    the residual onto the span of the response vectors -- for EVERY set of response vectors, linearly dependent ones included:
-    the rank loop is shared by the whole batch, so a molecule with fewer independent density directions than the rank reached
-    (H2 has one) meets a singular Gram matrix.  1x1 'matrices', rank 1 and rank 2 (two vectors in a one-dimensional space: always
-    dependent), and 2x2 symmetric matrices with rank 1."""
-    import seqm.seqm_functions.scf_loop as S_
-    from contracts.C07_differentiability import _quiet
-
-    ctx.under_contract(SCF + ":scf_forward3", note="subspace solve inside the Krylov loop: statements `Rank_m = k + 1` ... `IdentRes = ...` (extracted on every run)")
-    tree = ast.parse(textwrap.dedent(inspect.getsource(S_.scf_forward3)))
+def ksa_subspace_contract(ctx, target, function, replay, site):
+    """shared by C03 (scf_forward3) and C09 (EnergyXL.forward): see task_ksa_subspace_solve."""
+    ctx.under_contract(target, note="subspace solve inside the Krylov loop: statements `Rank_m = k + 1` ... `IdentRes = ...` (extracted on every run)")
+    tree = ast.parse(textwrap.dedent(inspect.getsource(function)))
     stmts = None
     for n in ast.walk(tree):
         if isinstance(n, ast.While):
@@ -829,13 +821,21 @@ def task_ksa_subspace_solve(ctx):
                 k1 = max(i for i, b in enumerate(n.body) if isinstance(b, ast.Assign) and isinstance(b.targets[0], ast.Name) and b.targets[0].id == "IdentRes")
                 stmts = [b for b in n.body[k0:k1 + 1] if not (isinstance(b, ast.Expr) and isinstance(b.value, ast.Constant))]
     if not stmts:
-        ctx.error("anchor", "no Krylov loop assigning Rank_m and IdentRes found in scf_forward3")
+        ctx.error(site + ".anchor", "no Krylov loop assigning Rank_m and IdentRes found in %s" % target)
         return
-    code = compile(ast.Module(body=stmts, type_ignores=[]), "<subspace solve of scf_forward3>", "exec")
+    code = compile(ast.Module(body=stmts, type_ignores=[]), "<subspace solve of %s>" % target, "exec")
     loads = {x.id for b in stmts for x in ast.walk(b) if isinstance(x, ast.Name) and isinstance(x.ctx, ast.Load)}
     stores = {x.id for b in stmts for x in ast.walk(b) if isinstance(x, ast.Name) and isinstance(x.ctx, ast.Store)}
     rep = []
-    replay = lambda mdl: (rep or rep.append(_quiet(replay_ksa_batch)) or rep)[0]
+
+    def rp(mdl):
+        if not rep:
+            try:
+                rep.append(replay({}))
+            except Exception as exc:  # noqa
+                rep.append({"reproduced": False, "error": repr(exc)[:300]})
+        return rep[0]
+
     checked = 0
     for nb, rank in ((1, 1), (1, 2), (2, 1)):
         def thunk():
@@ -853,18 +853,18 @@ def task_ksa_subspace_solve(ctx):
             exec(code, env)
             return env["IdentRes"], Wt, d
 
-        ex = ctx.explore(thunk, name="ksa-subspace-solve[%dx%d,rank %d]" % (nb, nb, rank), max_paths=64)
+        ex = ctx.explore(thunk, name="%s ksa-subspace-solve[%dx%d,rank %d]" % (site, nb, nb, rank), max_paths=64)
         for p in ex.paths:
-            tag = "ksa_subspace[%dx%d,rank=%d]@p%d" % (nb, nb, rank, p.path_id)
+            tag = "%s[%dx%d,rank=%d]@p%d" % (site, nb, nb, rank, p.path_id)
             if p.raised is not None:
                 if isinstance(p.raised, Unmodelled):
                     raise p.raised
-                ctx.fail(tag + ".returns", repr(p.raised), replay=replay)
+                ctx.fail(tag + ".returns", repr(p.raised), replay=rp)
                 continue
             res, Wt, d = p.value
             for i in range(nb):
                 for j in range(nb):
-                    ctx.prove(tag + ".IdentRes[%d,%d].is-defined-for-every-set-of-response-vectors" % (i, j), Sym(E.defined(res.a[0, i, j].n)), pc=p.pc, replay=replay,
+                    ctx.prove(tag + ".IdentRes[%d,%d].is-defined-for-every-set-of-response-vectors" % (i, j), Sym(E.defined(res.a[0, i, j].n)), pc=p.pc, replay=rp,
                               classify=lambda m_, r: "singular-gram-matrix")
                     checked += 1
             for r in range(rank):
@@ -876,8 +876,20 @@ def task_ksa_subspace_solve(ctx):
                 ctx.prove_eq(tag + ".residual-of-the-projection-is-orthogonal-to-W[%d]" % r, dot, S(0), pc=list(p.pc) + dfd)
                 checked += 1
     if not checked:
-        ctx.error("ksa_subspace.vacuous", "no obligation generated")
-    ctx.assume_note("ksa_subspace_solve: pseudo-inverse modelled exactly (rank decided by det and trace), its numerical cut-off is not; matrices up to 2x2 and rank up to 2")
+        ctx.error(site + ".vacuous", "no obligation generated")
+    ctx.assume_note("%s: pseudo-inverse modelled exactly (rank decided by det and trace), its numerical cut-off is not; matrices up to 2x2 and rank up to 2" % site)
+
+
+def task_ksa_subspace_solve(ctx):
+    """O4 for the KSA driver: the statements of scf_forward3 that solve for the update inside the Krylov subspace
+    (Rank_m = ... up to IdentRes = ..., extracted from the source on every run) are total and return the orthogonal projection of
+    the residual onto the span of the response vectors -- for EVERY set of response vectors, linearly dependent ones included:
+    the rank loop is shared by the whole batch, so a molecule with fewer independent density directions than the rank reached
+    (H2 has one) meets a singular Gram matrix.  1x1 'matrices', rank 1 and rank 2 (two vectors in a one-dimensional space: always
+    dependent), and 2x2 symmetric matrices with rank 1."""
+    import seqm.seqm_functions.scf_loop as S_
+
+    ksa_subspace_contract(ctx, SCF + ":scf_forward3", S_.scf_forward3, replay_ksa_batch, "ksa_subspace")
 
 
 def task_ksa_flag(ctx):
